@@ -1078,7 +1078,15 @@ def _contexts_active_by_trickery(frame: types.FrameType) -> List[Context]:
     if exiting is not None:
         ret.append(replace(with_block_info[exiting.cleanup_offset], is_exiting=True))
     locals_by_id = {}
-    for name, value in frame.f_locals.items():
+    try:
+        local_items = list(frame.f_locals.items())
+    except Exception:
+        # (The namespace of a class body or of exec()'d code need not be a
+        # dict, nor have items(); and the one of module-level code can be
+        # changed by another thread while we look. We only want it for
+        # guessing a name.)
+        local_items = []
+    for name, value in local_items:
         locals_by_id[id(value)] = name
     for idx, info in enumerate(ret):
         if info.obj is not None and info.varname is None:
